@@ -123,7 +123,7 @@ def run_case(ctx, kind, rng, idx):
     X, info = cc.gen_data(rng, nmax=50)
     n, d = X.shape
     mname = ['euclidean', 'manhattan', 'chebyshev'][int(rng.integers(0, 3))]
-    m = cc.metric_arg(mname)
+    m = cc.metric_arg(mname, rng)
     # ---- center list ----------------------------------------------------
     ck = ['subset', 'foreign', 'dups', 'many'][int(rng.integers(0, 4))]
     if ck == 'subset':
@@ -428,3 +428,49 @@ def run_traj(ctx, rng, idx):
     elif k >= 2 and not related:
         ctx.nontriv('traj', frames.xyz.tobytes(), cx.tobytes(), as_traj)
     ctx.count('traj_assignments_checked')
+    # ---- an estimator with a history: fit, predict, fit on OTHER data with
+    # the same number of clusters, predict again (few frames each time, so
+    # both code paths of the assignment are taken).  Every predict answers
+    # for the centers of the latest fit.
+    if idx % 3 == 0:
+        from enspara.cluster import kcenters as _kc, hybrid as _hy
+        kk = int(rng.integers(2, 7))
+        est = _kc.KCenters(md.rmsd, n_clusters=kk) if rng.random() < 0.5 \
+            else _hy.KHybrid(md.rmsd, n_clusters=kk, kmedoids_updates=1,
+                             mpi_mode=False, random_state=0)
+        try:
+            for round_ in range(2):
+                data = md.Trajectory(trajgen.random_xyz(
+                    rng, int(rng.integers(kk + 1, 20)), n_atoms), top)
+                est.fit(data)
+                for _ in range(2):
+                    nq = int(rng.integers(1, 2 * kk))
+                    q = md.Trajectory(trajgen.random_xyz(rng, nq, n_atoms),
+                                      top)
+                    pred = est.predict(q)
+                    cen = est.centers_
+                    cen_t = cen if hasattr(cen, 'xyz') else md.join(list(cen))
+                    Dq = np.stack([md.rmsd(q, cen_t, frame=i)
+                                   for i in range(len(cen_t))],
+                                  axis=1).astype(float)
+                    mq = Dq.min(axis=1)
+                    pa = np.asarray(pred.assignments)
+                    pd_ = np.asarray(pred.distances, dtype=float)
+                    ctx.count('predict_after_refit_checked')
+                    if np.any(np.abs(pd_ ** 2 - mq ** 2) > 2e-5 * (
+                            1 + mq ** 2)) or np.any(
+                            Dq[np.arange(nq), pa] ** 2 > mq ** 2 + 2e-5 * (
+                                1 + mq ** 2)):
+                        ctx.violation(
+                            'predict.traj.not-nearest[%s]' % (
+                                'after-refit' if round_ else 'first-fit'),
+                            'predict() on %d frames with %d centers: reported '
+                            'distances %s, minimal rmsd to the current '
+                            'centers %s' % (nq, len(cen_t),
+                                            np.round(pd_, 4).tolist()[:5],
+                                            np.round(mq, 4).tolist()[:5]))
+                        raise StopIteration
+        except StopIteration:
+            pass
+        except Exception as e:  # noqa
+            ctx.crash('predict.traj.raised', e)
